@@ -1,7 +1,8 @@
 (* WatchSys — executable model of the watch path of pkg/backend:
      ring.go        Ring {s,e,l,arr}, Add, FindEvents (sort.Search + one/two-segment copy)
      watcherhub.go  AddWatcher, Stream (one item = one label, subscriber order = label parameter,
-                    non-blocking send, *asynchronous* `go DeleteWatcher`), DeleteWatcher, ctx.Done deleter
+                    non-blocking send, slow subscribers deleted synchronously before the next item), DeleteWatcher,
+                    ctx.Done deleter
      watch.go       Watch: subscribe -> FindEvents -> empty/high/low/replay decision -> catchUpEvents
                     -> processEvents (filterByRevision, filterByPrefix), result channel, consumer
      backend.go     collectStorageWriteEvents (208-273): slot committed+1 -> SetCurrentRevision ->
@@ -241,7 +242,6 @@ Record watcher := mkW {
   w_phase : phase;
   w_reg : bool;                 (* sub ∈ hub.subs *)
   w_sub : chan;                 (* hub -> processEvents, capacity p_hub *)
-  w_delpend : nat;              (* `go DeleteWatcher(sub)` goroutines spawned by Stream, not yet run *)
   w_ctx : bool;                 (* watch context cancelled *)
   w_ctxdone : bool;             (* the ctx.Done goroutine of AddWatcher has run *)
   w_filter : N;                 (* revision argument of processEvents *)
@@ -255,7 +255,7 @@ Record watcher := mkW {
   w_catch : list event;         (* events sent by catchUpEvents *)
   w_snap : list event;          (* ring window seen by FindEvents *)
   w_dropped : bool;             (* Stream found the buffer full at least once *)
-  w_gap : bool                  (* Stream put a batch into the buffer after having dropped one *)
+  w_gap : bool                  (* Stream put a batch into the buffer after having dropped one (never happens) *)
 }.
 
 Record sys := mkSys {
@@ -269,7 +269,7 @@ Record sys := mkSys {
   (* ghost *)
   s_cachedR : list event;       (* every event ever added to the cache, newest first (see s_cached) *)
   s_hubR : list event;          (* the items Stream has fanned out, concatenated, newest first (see s_hub) *)
-  s_spawned : list nat          (* watchers for which Stream spawned a deleter, in spawn order *)
+  s_spawned : list nat          (* watchers Stream dropped as slow (one `drop.slow.watcher` emission each), in order *)
 }.
 
 (* the ghost logs are kept newest-first so that a step costs O(1); these are the logs in order *)
@@ -284,8 +284,8 @@ Inductive label :=
 | LSeqTake (we : wevent)        (* sequencer loads slot committed+1, clears it, SetCurrentRevision, builds the event *)
 | LSeqCache                     (* watchCache.Add *)
 | LSeqSend                      (* watchChan <- evs *)
-| LHubItem (order : list nat)   (* Stream: one item offered to every subscriber, map order = parameter *)
-| LHubDelete (w : nat)          (* a spawned `go DeleteWatcher(sub, true)` runs *)
+| LHubItem (order : list nat)   (* Stream: one item offered to every subscriber (map order = parameter); the
+                                   subscribers found slow are deleted before the next item is taken *)
 | LCtxDelete (w : nat)          (* the ctx.Done goroutine of AddWatcher runs DeleteWatcher *)
 | LWatchSub (S : N) (P : bytes) (* Watch: AddWatcher, make(result) *)
 | LWatchRead (w : nat)          (* FindEvents *)
@@ -297,19 +297,19 @@ Inductive label :=
 (* ------------------------------------------------------------------ record updates *)
 
 Definition w_set_phase (w : watcher) (x : phase) : watcher :=
-  mkW (w_S w) (w_P w) x (w_reg w) (w_sub w) (w_delpend w) (w_ctx w) (w_ctxdone w) (w_filter w) (w_hold w)
+  mkW (w_S w) (w_P w) x (w_reg w) (w_sub w) (w_ctx w) (w_ctxdone w) (w_filter w) (w_hold w)
       (w_out w) (w_gotR w) (w_seen_close w) (w_base w) (w_inR w) (w_catch w) (w_snap w) (w_dropped w) (w_gap w).
 Definition w_set_ctx (w : watcher) (x : bool) : watcher :=
-  mkW (w_S w) (w_P w) (w_phase w) (w_reg w) (w_sub w) (w_delpend w) x (w_ctxdone w) (w_filter w) (w_hold w)
+  mkW (w_S w) (w_P w) (w_phase w) (w_reg w) (w_sub w) x (w_ctxdone w) (w_filter w) (w_hold w)
       (w_out w) (w_gotR w) (w_seen_close w) (w_base w) (w_inR w) (w_catch w) (w_snap w) (w_dropped w) (w_gap w).
-Definition w_set_hub (w : watcher) (reg : bool) (sub : chan) (dp : nat) (ctxdone : bool) : watcher :=
-  mkW (w_S w) (w_P w) (w_phase w) reg sub dp (w_ctx w) ctxdone (w_filter w) (w_hold w)
+Definition w_set_hub (w : watcher) (reg : bool) (sub : chan) (ctxdone : bool) : watcher :=
+  mkW (w_S w) (w_P w) (w_phase w) reg sub (w_ctx w) ctxdone (w_filter w) (w_hold w)
       (w_out w) (w_gotR w) (w_seen_close w) (w_base w) (w_inR w) (w_catch w) (w_snap w) (w_dropped w) (w_gap w).
 Definition w_set_pipe (w : watcher) (sub : chan) (hold : option (list event)) (out : chan) : watcher :=
-  mkW (w_S w) (w_P w) (w_phase w) (w_reg w) sub (w_delpend w) (w_ctx w) (w_ctxdone w) (w_filter w) hold
+  mkW (w_S w) (w_P w) (w_phase w) (w_reg w) sub (w_ctx w) (w_ctxdone w) (w_filter w) hold
       out (w_gotR w) (w_seen_close w) (w_base w) (w_inR w) (w_catch w) (w_snap w) (w_dropped w) (w_gap w).
 Definition w_set_client (w : watcher) (out : chan) (got : list (list event)) (seen : bool) : watcher :=
-  mkW (w_S w) (w_P w) (w_phase w) (w_reg w) (w_sub w) (w_delpend w) (w_ctx w) (w_ctxdone w) (w_filter w) (w_hold w)
+  mkW (w_S w) (w_P w) (w_phase w) (w_reg w) (w_sub w) (w_ctx w) (w_ctxdone w) (w_filter w) (w_hold w)
       out got seen (w_base w) (w_inR w) (w_catch w) (w_snap w) (w_dropped w) (w_gap w).
 
 Definition s_set_ws (s : sys) (ws : list watcher) : sys :=
@@ -332,9 +332,9 @@ Definition upd_w (s : sys) (i : nat) (f : watcher -> watcher) : sys := s_set_ws 
 
 
 (* DeleteWatcher body under the lock (watcherhub.go:67-72) *)
-Definition delete_watcher (w : watcher) (dp : nat) (ctxdone : bool) : watcher :=
-  if w_reg w then w_set_hub w false (chan_close (w_sub w)) dp ctxdone
-  else w_set_hub w false (w_sub w) dp ctxdone.
+Definition delete_watcher (w : watcher) (ctxdone : bool) : watcher :=
+  if w_reg w then w_set_hub w false (chan_close (w_sub w)) ctxdone
+  else w_set_hub w false (w_sub w) ctxdone.
 
 (* Stream, one subscriber: select { case sub <- item: default: ...; go DeleteWatcher } *)
 Definition would_drop (pa : params) (w : watcher) : bool := w_reg w && negb (chan_len (w_sub w) <? p_hub pa).
@@ -343,11 +343,13 @@ Definition offer (pa : params) (item : list event) (w : watcher) : watcher :=
   if w_reg w then
     if chan_len (w_sub w) <? p_hub pa then
       mkW (w_S w) (w_P w) (w_phase w) (w_reg w) (chan_send (w_sub w) item)
-          (w_delpend w) (w_ctx w) (w_ctxdone w) (w_filter w) (w_hold w) (w_out w) (w_gotR w) (w_seen_close w)
+          (w_ctx w) (w_ctxdone w) (w_filter w) (w_hold w) (w_out w) (w_gotR w) (w_seen_close w)
           (w_base w) (rev_append item (w_inR w)) (w_catch w) (w_snap w) (w_dropped w) (w_gap w || w_dropped w)
     else
-      mkW (w_S w) (w_P w) (w_phase w) (w_reg w) (w_sub w)
-          (S (w_delpend w)) (w_ctx w) (w_ctxdone w) (w_filter w) (w_hold w) (w_out w) (w_gotR w) (w_seen_close w)
+      (* default branch: the batch is dropped for this subscriber; Stream remembers it and, after the fan-out
+         of this item and before it takes the next one, closes and unregisters it (DeleteWatcher) *)
+      mkW (w_S w) (w_P w) (w_phase w) false (chan_close (w_sub w))
+          (w_ctx w) (w_ctxdone w) (w_filter w) (w_hold w) (w_out w) (w_gotR w) (w_seen_close w)
           (w_base w) (w_inR w) (w_catch w) (w_snap w) true (w_gap w)
   else w.
 
@@ -362,7 +364,7 @@ Definition send_panics (w : watcher) : bool := w_reg w && c_closed (w_sub w).
 (* ------------------------------------------------------------------ watch *)
 
 Definition new_watcher (S : N) (P : bytes) (base : nat) : watcher :=
-  mkW S P PhSub true empty_chan 0 false false 0 None empty_chan [] false base [] [] [] false false.
+  mkW S P PhSub true empty_chan false false 0 None empty_chan [] false base [] [] [] false false.
 
 Definition snap_of (ret : find_ret) : list event :=
   match ret with
@@ -377,7 +379,7 @@ Definition watch_read (s : sys) (w : watcher) : watcher :=
   end.
 
 Definition start_proc (w : watcher) (flt : N) (catch : list (list event)) (snap : list event) : watcher :=
-  mkW (w_S w) (w_P w) PhRun (w_reg w) (w_sub w) (w_delpend w) (w_ctx w) (w_ctxdone w) flt None
+  mkW (w_S w) (w_P w) PhRun (w_reg w) (w_sub w) (w_ctx w) (w_ctxdone w) flt None
       (chan_of catch) (w_gotR w) (w_seen_close w) (w_base w) (w_inR w) (concat catch) snap
       (w_dropped w) (w_gap w).
 
@@ -466,10 +468,8 @@ Definition step (pa : params) (s : sys) (lb : label) : sys :=
                 (s_spawned s ++ filter (fun i => match nth_error (s_ws s) i with Some w => would_drop pa w | None => false end)
                                        (arrange order (length (s_ws s))))
       end
-  | LHubDelete i =>
-      upd_w s i (fun w => match w_delpend w with O => w | S n => delete_watcher w n (w_ctxdone w) end)
   | LCtxDelete i =>
-      upd_w s i (fun w => if w_ctx w && negb (w_ctxdone w) then delete_watcher w (w_delpend w) true else w)
+      upd_w s i (fun w => if w_ctx w && negb (w_ctxdone w) then delete_watcher w true else w)
   | LWatchSub sr pf => s_set_ws s (s_ws s ++ [new_watcher sr pf (length (s_hubR s))])
   | LWatchRead i => upd_w s i (watch_read s)
   | LWatchSpawn i =>
@@ -513,6 +513,29 @@ Definition quiescent (s : sys) (w : watcher) : bool :=
   | None, [], [], [], None, [] => true
   | _, _, _, _, _, _ => false
   end.
+
+(* ------------------------------------------------------------------ the hub before the repair of C05-F1 *)
+
+(* Until the repair Stream spawned `go DeleteWatcher(sub, true)` for a slow subscriber and went on: the
+   subscriber stayed registered until that goroutine ran. Kept only for the Example in Props/C05.v showing
+   that this variant lets a stream continue past a dropped batch. *)
+Definition offer_async (pa : params) (item : list event) (w : watcher) : watcher :=
+  if w_reg w && negb (chan_len (w_sub w) <? p_hub pa) then
+    mkW (w_S w) (w_P w) (w_phase w) (w_reg w) (w_sub w)
+        (w_ctx w) (w_ctxdone w) (w_filter w) (w_hold w) (w_out w) (w_gotR w) (w_seen_close w)
+        (w_base w) (w_inR w) (w_catch w) (w_snap w) true (w_gap w)
+  else offer pa item w.
+
+Definition hub_item_async (pa : params) (s : sys) : sys :=
+  match s_wchan s with
+  | [] => s
+  | item :: rest =>
+      mkSys (s_committed s) (s_cur s) (s_pending s) (s_cache s) rest (map (offer_async pa item) (s_ws s)) (s_panic s)
+            (s_cachedR s) (rev_append item (s_hubR s)) (s_spawned s)
+  end.
+
+(* the spawned deleter finally runs *)
+Definition late_delete (i : nat) (s : sys) : sys := upd_w s i (fun w => delete_watcher w (w_ctxdone w)).
 
 (* ------------------------------------------------------------------ the ordering premise, made visible *)
 
